@@ -19,3 +19,29 @@ Definition col_prov (fancyh : bool) (hr dsw X : Z) : Z * Z :=
    a plane of width dsw' and output column j of the region *)
 Definition col_prov_crop (fancyh : bool) (hr dct f dsw' j : Z) : Z * Z :=
   let '(a, b) := col_prov fancyh hr dsw' j in (f * dct + a, f * dct + b).
+
+(* ---- jpeg_crop_scanline called a second time (libjpeg.txt allows it; in buffered-image mode: before a later pass) ---- *)
+(* region (xoffset, width) delivered after one call on an uncropped decompressor of row width ow *)
+Definition crop_region (ow align x w : Z) : option (Z * Z) :=
+  match crop_scanline ow align x w with
+  | CropErr => None
+  | CropWhole => Some (0, ow)
+  | CropOk x' w' _ _ => Some (x', w')
+  end.
+
+(* the code that exists tests the second request against cinfo->output_width, which the first call has already reduced:
+   ReErr = JERR_WIDTH_OVERFLOW, ReIgnored x w = early return "caller wants the entire width", the region (x, w) of the
+   first call stays in force while the caller's xoffset/width come back unchanged *)
+Inductive recrop_out := ReErr | ReIgnored (x w : Z) | ReOk (x w : Z).
+Definition recrop_faithful (ow align x1 w1 x2 w2 : Z) : option recrop_out :=
+  match crop_region ow align x1 w1 with
+  | None => None
+  | Some (xa, wa) =>
+      Some (match crop_scanline wa align x2 w2 with
+            | CropErr => ReErr
+            | CropWhole => ReIgnored xa wa
+            | CropOk x' w' _ _ => ReOk x' w'
+            end)
+  end.
+(* what the documentation promises: xoffset and width are relative to the (scaled) image row *)
+Definition recrop_documented (ow align x2 w2 : Z) : option (Z * Z) := crop_region ow align x2 w2.
